@@ -2,6 +2,7 @@
 one rule with it, inside a scratch directory tree with symlinks, while a Python audit hook records (and, for
 the network, refuses) every process / file / socket / exec event.  Result: outcome classes, the tree of
 capability flags found on the instantiated objects, and the ordered effect trace."""
+from impl.excname import exc_name
 import atexit, builtins, copy, json, os, shutil, sys, tempfile
 
 import yaml
@@ -183,7 +184,7 @@ def walk(p, r, unsb=None):
 
 def _exc(e):
     from sigma.exceptions import SigmaSecurityError
-    return {"exc": type(e).__name__, "sigma": isinstance(e, SigmaError), "security": isinstance(e, SigmaSecurityError),
+    return {"exc": exc_name(e), "sigma": isinstance(e, SigmaError), "security": isinstance(e, SigmaSecurityError),
             "msg": str(e)[:160]}
 
 
